@@ -2,11 +2,11 @@ SPECIFICATION Spec
 CONSTANTS
   Dialect = "code"
   TokLeaves = {"a", ","}
-  DocDepth = 3
+  DocDepth = 2
   SubDepth = 0
   Wide = TRUE
-  Slim = TRUE
+  Slim = FALSE
   Alphabet = {"a", ",", "@"}
-  MaxInput = 3
+  MaxInput = 4
 INVARIANTS TypeOK StackDistinct Consumes Bounded NoHang RejectSound Export
 
